@@ -1,0 +1,82 @@
+/*
+ * Atree - Scalable Arrays and Ordered Maps
+ *
+ * Copyright Flow Foundation
+ *
+ * Licensed under the Apache License, Version 2.0 (the "License");
+ * you may not use this file except in compliance with the License.
+ * You may obtain a copy of the License at
+ *
+ *   http://www.apache.org/licenses/LICENSE-2.0
+ *
+ * Unless required by applicable law or agreed to in writing, software
+ * distributed under the License is distributed on an "AS IS" BASIS,
+ * WITHOUT WARRANTIES OR CONDITIONS OF ANY KIND, either express or implied.
+ * See the License for the specific language governing permissions and
+ * limitations under the License.
+ */
+
+//go:build verif
+
+package atree
+
+//@ # ---------------------------------------------------------------- hash.go (C04: digests depend on the key bytes and the seed only)
+
+//@ ghost b3 : fn(m []byte) [32]byte
+//@ ghost ch64 : fn(m []byte, k0 uint64) uint64
+
+//@ extern blake3.Sum256(b) (sum)
+//@   ensures sum == b3(b)
+//@   pure
+
+//@ extern circlehash.Hash64(b, seed) (h)
+//@   ensures h == ch64(b, seed)
+//@   pure
+
+//@ extern sync.Pool.Put(x)
+//@   pure
+
+//@ # caller-supplied hash input provider: may fill the scratch buffer it is given, touches nothing else of atree (A2)
+//@ functype HashInputProvider(value, buffer) (msg, err)
+//@   modifies basicDigester.scratch, alloc
+
+//@ iface Digester.Reset()
+//@   ensures is(recv, *basicDigester) ==> cleanDigester(as(recv, *basicDigester))
+//@   modifies basicDigester.circleHash64, basicDigester.blake3Hash, basicDigester.msg
+
+//@ # a digester as handed out by the builder: nothing cached from an earlier key
+//@ pred cleanDigester(bd *basicDigester) = bd.circleHash64 == 0 && bd.blake3Hash == emptyBlake3Hash && bd.msg == nil
+
+//@ # the lazily computed BLAKE3 words are either absent or those of the current message
+//@ pred digCoh(bd *basicDigester) = bd.blake3Hash == emptyBlake3Hash ||
+//@      (forall w :: 0 <= w && w < 4 ==> bd.blake3Hash[w] == be64(b3(bd.msg), 8 * w))
+
+//@ func (bd *basicDigester) Reset()  serves C04
+//@   ensures cleanDigester(bd)
+//@   modifies bd.circleHash64, bd.blake3Hash, bd.msg
+
+//@ func putDigester(e)  serves C04
+//@   requires e != nil
+//@   ensures is(e, *basicDigester) ==> cleanDigester(as(e, *basicDigester))
+//@   modifies basicDigester.circleHash64, basicDigester.blake3Hash, basicDigester.msg
+
+//@ func getBasicDigester() (bd)  serves C04
+//@   trusted "pool invariant: sync.Pool only ever holds digesters passed to putDigester (whose post-condition is cleanDigester) or created by New (zero value)"
+//@   ensures bd != nil && cleanDigester(bd)
+//@   modifies alloc
+
+//@ func (bdb *basicDigesterBuilder) Digest(hip, value) (d, err)  serves C04 C18
+//@   requires hip != nil
+//@   ensures bdb.k0 == 0 ==> err != nil && isFatal(err)
+//@   ensures err == nil ==> is(d, *basicDigester) && as(d, *basicDigester).blake3Hash == emptyBlake3Hash &&
+//@        as(d, *basicDigester).circleHash64 == ch64(as(d, *basicDigester).msg, bdb.k0) && digCoh(as(d, *basicDigester))
+//@   ensures err != nil ==> categorised(err)
+//@   modifies basicDigester.circleHash64, basicDigester.blake3Hash, basicDigester.msg, basicDigester.scratch, alloc
+
+//@ func (bd *basicDigester) Digest(level) (dg, err)  serves C04
+//@   requires digCoh(bd)
+//@   ensures level >= 4 ==> err != nil
+//@   ensures level == 0 ==> err == nil && dg == bd.circleHash64
+//@   ensures 1 <= level && level <= 3 ==> err == nil && dg == be64(b3(bd.msg), 8 * (level - 1))
+//@   ensures digCoh(bd) && bd.msg == old(bd.msg) && bd.circleHash64 == old(bd.circleHash64)
+//@   modifies bd.blake3Hash, alloc
